@@ -571,6 +571,19 @@ class BaseCurve(Intface_BaseCurve):
         if oldctrlpoints is None and oldweights is None:
             self.knotvector = newknotvector
             return
+        oldknotvector = self.knotvector
+        try:
+            self.__apply(newknotvector, matrix, oldctrlpoints, oldweights)
+        except Exception:
+            # Leave the curve as it was
+            self.ctrlpoints = None
+            self.weights = None
+            self.knotvector = oldknotvector
+            self.weights = oldweights
+            self.ctrlpoints = oldctrlpoints
+            raise
+
+    def __apply(self, newknotvector, matrix, oldctrlpoints, oldweights):
         self.ctrlpoints = None
         self.weights = None
         self.knotvector = newknotvector
